@@ -23,6 +23,7 @@ import framework
 import trace_util
 
 PID = "C09"
+HEAP = "2g"       # at most 8 TLC JVMs at a time (the thread pool below), 2 GB each
 SCR = os.path.join(framework.ROOT, ".scratch")
 REPO = os.environ.get("VERIF_REPO", "/repo")
 TEST_FILES = ["tests/test_signal.py", "tests/test_transforms.py", "tests/test_dedispersion.py",
@@ -32,7 +33,8 @@ NEG = [("Neg_Dask_chirpkey.cfg", "OrderIndependent"), ("Neg_Dask_nofftcheck.cfg"
        ("Neg_Dask_eager.cfg", "Lazy"), ("Neg_Dask_numpy.cfg", "StaysDask"),
        ("Neg_Dask_readerblocks.cfg", "SameAsNumpy"), ("Neg_Dask_overwrite.cfg", "InputsStable"),
        ("Neg_Dask_overwrite2.cfg", "SameAsNumpy"), ("Neg_Dask_stickykw.cfg", "SameAsNumpy"),
-       ("Neg_Dask_setitemlost.cfg", "SameAsNumpy"), ("Neg_Dask_sharedhandle.cfg", "OrderIndependent")]
+       ("Neg_Dask_setitemlost.cfg", "SameAsNumpy"), ("Neg_Dask_sharedhandle.cfg", "OrderIndependent"),
+       ("Neg_Dask_roll.cfg", "SameAsNumpy")]
 
 
 def _load(path):
@@ -54,7 +56,7 @@ def _gen(name, cfg, workers, timeout):
     out = os.path.join(SCR, "C09_%s_%d.ndjson" % (name, os.getpid()))
     if os.path.exists(out):
         os.remove(out)
-    r = tlc.run("Gen_Dask", cfg, env={"GEN_OUT": out}, workers=workers, timeout=timeout)
+    r = tlc.run("Gen_Dask", cfg, env={"GEN_OUT": out}, workers=workers, timeout=timeout, heap=HEAP)
     return r, out
 
 
@@ -109,8 +111,8 @@ def run(chk):
            if thorough else
            [("MC_Dask_quick", "MC_Dask_quick.cfg"), ("MC_Dask_runs_quick", "MC_Dask_runs_quick.cfg"),
             ("MC_Dask_sched_quick", "MC_Dask_sched_quick.cfg")])
-    mc_f = [(n, pool.submit(tlc.run, "MC_Dask", c, workers=W, timeout=2400 if thorough else 900)) for n, c in mcs]
-    neg_f = [(c, inv, pool.submit(tlc.run, "MC_Dask", c, workers=2, timeout=600)) for c, inv in NEG]
+    mc_f = [(n, pool.submit(tlc.run, "MC_Dask", c, workers=W, timeout=2400 if thorough else 900, heap=HEAP)) for n, c in mcs]
+    neg_f = [(c, inv, pool.submit(tlc.run, "MC_Dask", c, workers=2, timeout=600, heap="1g")) for c, inv in NEG]
 
     viol = []          # (key, desc, case)
     events = []        # for Trace_Dask, each with "src"
@@ -242,7 +244,7 @@ def run(chk):
     for i, e in enumerate(events):
         e["id"] = i
     slim = [{k: v for k, v in e.items() if k != "src"} for e in events]
-    rejected, n = trace_util.validate("Trace_Dask", slim, batch=6000, chk=chk, name="Trace_Dask", timeout=1200)
+    rejected, n = trace_util.validate("Trace_Dask", slim, batch=6000, chk=chk, name="Trace_Dask", timeout=1200, heap=HEAP)
     chk.validated += n
     walls["trace"] = round(time.time() - t_start, 1)
     notes["trace_events"] = n
@@ -325,7 +327,7 @@ def replay(doc):
     for i, e in enumerate(evs):
         e["id"] = i
     if evs:
-        rejected, _ = trace_util.validate("Trace_Dask", evs, batch=6000)
+        rejected, _ = trace_util.validate("Trace_Dask", evs, batch=6000, heap=HEAP)
         for e, failed in rejected:
             for clause in failed:
                 found.append(("trace:%s:%s" % (clause, e["ev"]), json.dumps({k: e[k] for k in ("pre", "post", "n0", "n1", "refused")})))
